@@ -241,6 +241,9 @@ def main(argv=None):
     rc = 0
     lines = []
     replay_dir = os.path.join(OUT, 'replays', prop)
+    if not a.only:
+        import shutil
+        shutil.rmtree(replay_dir, ignore_errors=True)      # replay files of an earlier run do not describe this one
     hmeta = {h.name: h for h in hs}
     real_violations = []
     for hname, oname, oid, w, r in violations:
